@@ -136,6 +136,7 @@ def make_session(impl, dims, seed, connect=True, **kw):
     sim.sync_plan.early_reply = bool(dims.get("early_reply", False))
     sim.version = dims.get("dev_version", 0x01000000)
     sim.eager = bool(dims.get("eager", False))
+    sim.early_close = bool(dims.get("early_close", False))   # opt-in per check (with several live streams it would step on K1 outside C06)
     if connect:
         out = s.call("connect")
         if not out.ok or out.value is not True:
